@@ -65,6 +65,7 @@ def random_circuit(
     allow_dup_operands=True,
     outputs_may_be_inputs=True,
     allow_zero_inputs=False,
+    dup_bias=0.0,
 ):
     pool = ALL_TYPES if pool is None else pool
     inputs = [f"x{i}" for i in range(n_inputs)] if labels is None else labels[:n_inputs]
@@ -82,6 +83,15 @@ def random_circuit(
                 continue
             break
         t = rnd.choice(ts)
+        if dup_bias and gates and rnd.random() < dup_bias:
+            # deliberate (possibly commuted) duplicate of an earlier gate, optionally over a duplicate operand
+            _, t0, ops0 = rnd.choice(gates)
+            ops0 = list(ops0)
+            if rnd.random() < 0.5:
+                rnd.shuffle(ops0)
+            gates.append((lab, t0, tuple(ops0)))
+            nodes.append(lab)
+            continue
         if allow_dup_operands or len(nodes) < k:
             ops = tuple(rnd.choice(nodes) for _ in range(k))
         else:
@@ -173,6 +183,12 @@ def feature_circuits():
     add("two_level_duplicates", ["a", "b", "c"],
         [("d1", G.OR, ("a", "b")), ("d2", G.OR, ("b", "a")), ("e1", G.AND, ("d2", "c")), ("e2", G.AND, ("c", "d2")), ("e3", G.AND, ("d2", "c")),
          ("f1", G.GT, ("e1", "d1")), ("f2", G.GT, ("e2", "d2")), ("o", G.XOR, ("f1", "f2", "e3"))], ["o", "e2", "f2"])
+    for first, other in (("d1", "d2"), ("d2", "d1")):
+        # the duplicate reached first by the traversal becomes the representative; gates hanging off the *other* one
+        # only become duplicates of each other after relinking
+        add(f"two_level_duplicates_off_{other}", ["a", "b", "c"],
+            [("d1", G.AND, ("a", "b")), ("d2", G.AND, ("b", "a")), ("x", G.OR, (other, "c")), ("y", G.OR, ("c", other)),
+             ("p", G.LEQ, (other, "c")), ("q", G.LEQ, (other, "c")), ("z", G.NOT, (first,))], ["x", "y", "p", "q", "z"])
     # pseudo-unary gates whose *insignificant* operand is a buffer / negation, negated again
     add("rnot_with_buffer_on_the_left", ["y", "z"],
         [("bz", G.IFF, ("z",)), ("r", G.RNOT, ("bz", "y")), ("n", G.NOT, ("r",)), ("l", G.LNOT, ("y", "bz")), ("m", G.NOT, ("l",)),
